@@ -386,7 +386,20 @@ func writeReplay(path string, ps *PropSpec, o *Oblig, e *Engine, repo, root stri
 // runReplay injects the property's replay test (an independent oracle driving the
 // real code over small inputs) into /repo through `go test -overlay` and reports
 // whether it found a concrete failing input.
+var replayCache = map[string]map[string]any{}
+
 func runReplay(ps *PropSpec, o *Oblig, repo, root string) map[string]any {
+	// one harness run per check and obligation class (the harness explores the same inputs for every obligation of a class)
+	ck := ps.Replay.Template + "|" + fmt.Sprint(strings.Contains(o.ID, "eneration"))
+	if r, ok := replayCache[ck]; ok {
+		return r
+	}
+	r := runReplay0(ps, o, repo, root)
+	replayCache[ck] = r
+	return r
+}
+
+func runReplay0(ps *PropSpec, o *Oblig, repo, root string) map[string]any {
 	res := map[string]any{"attempted": true, "harness": ps.Replay.Template}
 	tmpl, err := os.ReadFile(filepath.Join(root, ps.Replay.Template))
 	if err != nil {
@@ -406,12 +419,12 @@ func runReplay(ps *PropSpec, o *Oblig, repo, root string) map[string]any {
 	ob, _ := json.Marshal(ov)
 	ovf := filepath.Join(tmp, "overlay.json")
 	os.WriteFile(ovf, ob, 0o644)
-	args := []string{"test", "-mod=mod", "-overlay", ovf, "-vet=off", "-count=1", "-timeout", "180s", "-run", ps.Replay.Run}
+	args := []string{"test", "-mod=mod", "-overlay", ovf, "-vet=off", "-count=1", "-timeout", "420s", "-run", ps.Replay.Run}
 	if ps.Replay.Tags != "" {
 		args = append(args, "-tags", ps.Replay.Tags)
 	}
 	args = append(args, ".")
-	out, code := runCmd(pkgDir, append(os.Environ(), "GOPROXY=off", "VERIF_OBLIGATION="+o.ID, "VERIF_REPLAY=1"), 240, "go", args...)
+	out, code := runCmd(pkgDir, append(os.Environ(), "GOPROXY=off", "VERIF_OBLIGATION="+o.ID, "VERIF_REPLAY=1"), 480, "go", args...)
 	res["cmd"] = "go " + strings.Join(args, " ")
 	res["exit"] = code
 	var hits []string
